@@ -434,6 +434,9 @@ def run_histories(ctx, hx, dist, cases, terms, refs, scalar_job):
             if p["mutated"] or p["out"] != "err":
                 ctx.finding("freeze:direct:path:" + name.split(":", 2)[2], "mutation path %s on a frozen message (view obtained %s the freeze): %s, content changed=%s" % (
                     name.split(":", 2)[2], name.split(":")[1], p["out"], p["mutated"]), p)
+        elif name.startswith("unset-default:"):
+            if p["out"] != "err" or p["mutated"]:
+                ctx.finding("store:unset-default:" + name.split(":", 1)[1], "a write through the default value of an unset field must fail with an error and change nothing (%s): %s, changed=%s" % (name, p["out"], p["mutated"]), p)
         elif name.startswith("lookalike:"):
             if p["out"] != "err":
                 ctx.finding("store:lookalike:" + name.split(":", 1)[1], "a value of a same-named but different message / enum type (another descriptor pool) was not rejected (%s): %s" % (name, p["detail"][:200]), p)
